@@ -17,7 +17,7 @@ from . import absmodel, core, tlc
 
 FEATURES = ["docstring", "future_import", "comments", "decorators", "nested_defs", "partial_annotations", "typing_import",
             "import_module_runtime", "import_alias", "import_in_function", "existing_tc_block", "star_import", "import_dotted",
-            "class_level_code", "module_level_code", "respelled_annotations"]
+            "class_level_code", "module_level_code", "respelled_annotations", "wordy_annotations"]
 
 
 def gen_source(feat):
@@ -31,6 +31,8 @@ def gen_source(feat):
     if "comments" in f:
         L.append("# a leading comment")
     L.append("import functools")
+    if "wordy_annotations" in f:
+        L.append("import typing")
     if "typing_import" in f:
         L.append("from typing import List, Optional")
     if "import_module_runtime" in f:
@@ -62,7 +64,10 @@ def gen_source(feat):
     if "nested_defs" in f:
         L += ["    def inner(q):", "        return q", "    x = inner(x)"]
     L += ["    return x", ""]
-    if "partial_annotations" in f and "respelled_annotations" in f:
+    if "partial_annotations" in f and "wordy_annotations" in f:
+        L += ["def f2(x: 'typing.Union[int, int, int, int, int, int]', y, z: 'typing.Optional[typing.Optional[str]]' = 's') -> "
+              "'typing.Union[int, int, int, int, int, int, int, int]':", "    return x", ""]
+    elif "partial_annotations" in f and "respelled_annotations" in f:
         L += ["def f2(x: 'int', y, z: int = None) -> \"int\":", "    return x", ""]
     elif "partial_annotations" in f:
         L += ["def f2(x: int, y, z: str = 's') -> int:", "    return x", ""]
@@ -476,6 +481,13 @@ def gen_cases(pid, tier, seed):
     subsets = [[f for f in FEATURES if rng.random() < 0.5] for _ in range(150 if q else 4000)]
     add("random feature subsets", subsets, confs, 1)
     add("all features", [FEATURES], confs, 6 if q else 40)
+    # wordy existing annotations overwritten by shorter traced ones, through the CLI (the file gets SHORTER)
+    n0 = len(cases)
+    for conf in confs:
+        for _ in range(4 if q else 30):
+            cases.append({"features": ["import_module_runtime", "partial_annotations", "typing_import", "wordy_annotations"], "traced": ["f2"],
+                          "types": {"f2": ["int"]}, "overwrite": True, "confine": conf, "k": 0, "via_cli": True})
+    plan.append({"family": "wordy annotations overwritten through the `apply` command (result shorter than the file)", "cases": len(cases) - n0})
     for i, c in enumerate(cases):
         c["tid"] = i + 1
     return cases, plan
